@@ -353,6 +353,43 @@ def _contains(t, c):
     return term_contains(t, c)
 
 
+_MLP_MEMO = {}
+
+
+def native_mlp_replay(model):
+    """R1: the real MLPActorCriticPolicy (scalar / vector Box, Discrete with masks, MultiDiscrete), several log_std_init values (action std != 1) and keys: evaluate_action of the
+    policy's own sample reproduces the value and log-probability action_and_value reported."""
+    if "r" in _MLP_MEMO:
+        return _MLP_MEMO["r"]
+    from lerax.policy import MLPActorCriticPolicy
+    from lerax.space import MultiDiscrete
+    import inspect
+    has_lsi = "log_std_init" in inspect.signature(MLPActorCriticPolicy.__init__).parameters
+    out = dict(reproduced=False, note="evaluate_action reproduces value and log-prob of the policy's own samples (Box (2,), Box (), Discrete masked, MultiDiscrete; log_std_init 0, -0.7, 0.4)")
+    spaces = [("Box(2,)", Box(-jnp.ones((2,)), jnp.ones((2,))), None), ("Box(3,) wide", Box(-5 * jnp.ones((3,)), 5 * jnp.ones((3,))), None), ("Box()", Box(-1.0, 1.0), None),
+              ("Discrete(3) masked", Discrete(3), jnp.array([True, False, True])), ("MultiDiscrete(2,3)", MultiDiscrete((2, 3)), None)]
+    for sname, space, mask in spaces:
+        for lsi in ((0.0, -0.7, 0.4) if (has_lsi and isinstance(space, Box)) else (None,)):
+            try:
+                E = GenericEnv(space, masked=mask is not None)
+                kw = {} if lsi is None else dict(log_std_init=lsi)
+                pol = MLPActorCriticPolicy(E, feature_size=4, feature_width=4, value_width=4, action_width=4, key=jax.random.key(3), **kw)
+            except Exception:
+                continue
+            for seed in range(4):
+                obs = jax.random.normal(jax.random.key(100 + seed), (2,))
+                _, a, v, lp = pol.action_and_value(None, obs, key=jax.random.key(seed), action_mask=mask)
+                _, v2, lp2, _ = pol.evaluate_action(None, obs, a, action_mask=mask)
+                if not (abs(float(jnp.sum(lp)) - float(jnp.sum(lp2))) <= 1e-4 * (1 + abs(float(jnp.sum(lp)))) and abs(float(v) - float(v2)) <= 1e-5 * (1 + abs(float(v)))):
+                    out = dict(reproduced=True, route="R1 (real MLPActorCriticPolicy.action_and_value then evaluate_action of the same sample)",
+                               inputs=dict(action_space=sname, log_std_init=lsi, key=seed, observation=np.asarray(obs).tolist()),
+                               observed=dict(action=np.asarray(a).tolist(), reported_log_prob=np.asarray(lp).tolist(), re_evaluated_log_prob=np.asarray(lp2).tolist(), value=float(v), re_evaluated_value=float(v2)))
+                    _MLP_MEMO["r"] = out
+                    return out
+    _MLP_MEMO["r"] = out
+    return out
+
+
 def unit_mlp_consistency(S):
     """Interface contract proved for the shipped policy: the jaxprs of action_and_value and evaluate_action of the real
     MLPActorCriticPolicy share the encoder / heads; with the distribution's sample_and_log_prob / log_prob cut at the
@@ -387,11 +424,22 @@ def unit_mlp_consistency(S):
         def ent(self):
             return opaque.ocall("law.entropy", sd((), jnp.float32), jax.tree.leaves(self))
 
-        with extract.patched((BD.AbstractDistreqxWrapper, "sample_and_log_prob", salp), (BD.AbstractDistreqxWrapper, "log_prob", lprob),
-                             (BD.AbstractDistreqxWrapper, "entropy", ent)):
-            _, a, v, lp = run(ctx, lambda p, o, kk, m: p.action_and_value(None, o, key=kk, action_mask=m), pol_in, obs, k, mask)
-            _, v2, lp2, _ = run(ctx, lambda p, o, aa, m: p.evaluate_action(None, o, aa, action_mask=m), pol_in, obs, a, mask)
-        S.prove(f"mlp/{space_name}/same-value-and-logprob", ctx, sand(ir.seq(v.scalar(), v2.scalar()), ir.seq(lp.scalar(), lp2.scalar())), function=fn,
+        what_ = ("evaluate_action(o, a, mask) == (value, log_prob) reported by action_and_value(o, k, mask) for its own sample a (same features, same masked law)")
+        try:
+            with extract.patched((BD.AbstractDistreqxWrapper, "sample_and_log_prob", salp), (BD.AbstractDistreqxWrapper, "log_prob", lprob),
+                                 (BD.AbstractDistreqxWrapper, "entropy", ent)):
+                _, a, v, lp = run(ctx, lambda p, o, kk, m: p.action_and_value(None, o, key=kk, action_mask=m), pol_in, obs, k, mask)
+                _, v2, lp2, _ = run(ctx, lambda p, o, aa, m: p.evaluate_action(None, o, aa, action_mask=m), pol_in, obs, a, mask)
+        except ir.Unsupported as e:
+            # the law no longer goes through the wrapper's sample_and_log_prob / log_prob (e.g. a subclass overrides one of them and draws its own random numbers): the cut at the
+            # distreqx law is not available - decided by the native witness, otherwise undecided
+            r = native_mlp_replay(None)
+            if r.get("reproduced"):
+                S.fact(f"mlp/{space_name}/same-value-and-logprob", False, function=fn, what=what_, shape=False, detail=f"extraction: {e}"[:200], replay=lambda m, r=r: r)
+            else:
+                S.undecided(f"mlp/{space_name}/same-value-and-logprob", f"unsupported by the translator: {e}; native re-evaluation agrees", function=fn, what=what_)
+            continue
+        S.prove(f"mlp/{space_name}/same-value-and-logprob", ctx, sand(ir.seq(v.scalar(), v2.scalar()), ir.seq(lp.scalar(), lp2.scalar())), function=fn, replay=native_mlp_replay,
                 what="evaluate_action(o, a, mask) == (value, log_prob) reported by action_and_value(o, k, mask) for its own sample a (same features, same masked law)")
 
 
